@@ -4,7 +4,7 @@
 (* variant, data, seed, hyper-parameters) together with the PLAN of        *)
 (* environments it must be run in: plan = <<threads, repetitions>> pairs   *)
 (* (threads = 0: rayon's global pool), each executed in nproc fresh        *)
-(* processes.  Six families:                                               *)
+(* processes.  Seven families:                                              *)
 (*   tie  : every small labelled lattice data set (sorted multisets of     *)
 (*          (x, z, label) rows, labels an initial segment) x the           *)
 (*          estimators whose result can hinge on a tie / on map order      *)
@@ -12,6 +12,9 @@
 (*          incremental Gaussian naive Bayes                               *)
 (*          (class fractions that are not dyadic: order-dependent sums)    *)
 (*   blob : every estimator variant of the catalogue x generated data sets *)
+(*   builder : 21 estimators whose parameter builders have setters x        *)
+(*          generated data, each run with four builder histories (fresh,    *)
+(*          re-set after use, clone of a used builder, final-use-final)     *)
 (*   hook : k-means family on small data with the kmeans.par hook recorded *)
 (*          under the full thread plan (binds the schedule model)          *)
 (*   hookbig : the same estimators on >= 9 000 rows, hook on (coarse loop     *)
@@ -127,12 +130,28 @@ BigEsts  == {e \in Catalogue : e[3]}
 
 SeedsOf(e) == IF e[4] THEN Seeds ELSE {7}
 
-Mk(fam, e, data, seed, k, plan, np, hook) ==
+\* ---- builder histories: the same final hyper-parameters reached through different histories of the
+\* parameter object (harness: mod est_builder).  The history is part of the environment of a run.
+Fresh  == <<"fresh">>
+AllHists == <<"fresh", "reset", "clone", "refinal">>
+BuilderEsts == {
+  <<"b_countvec", "", FALSE, FALSE>>, <<"b_tfidf", "", FALSE, FALSE>>, <<"b_kmeans", "", TRUE, TRUE>>, <<"b_gmm", "", TRUE, TRUE>>,
+  <<"b_svc", "", FALSE, FALSE>>, <<"b_svr", "", FALSE, FALSE>>, <<"b_tree", "", FALSE, FALSE>>, <<"b_elasticnet", "", FALSE, FALSE>>,
+  <<"b_logistic", "", FALSE, FALSE>>, <<"b_mlogistic", "", FALSE, FALSE>>, <<"b_glm", "", FALSE, FALSE>>, <<"b_pls", "", FALSE, FALSE>>,
+  <<"b_ftrl", "", FALSE, TRUE>>, <<"b_gnb", "", FALSE, FALSE>>, <<"b_dbscan", "", FALSE, FALSE>>, <<"b_ica", "", FALSE, TRUE>>,
+  <<"b_randproj", "", FALSE, TRUE>>, <<"b_pca", "", FALSE, FALSE>>, <<"b_hier", "", FALSE, FALSE>>, <<"b_scaler", "", FALSE, FALSE>>,
+  <<"b_whiten", "", FALSE, FALSE>> }
+BuilderSets == IF Tier = "quick" THEN {<<40, 2, 2, 1>>, <<150, 3, 3, 2>>}
+               ELSE {<<40, 2, 2, 1>>, <<150, 3, 3, 2>>, <<150, 3, 5, 3>>, <<60, 1, 2, 5>>, <<300, 4, 7, 6>>}
+PlanBuilder == << <<1, 2>>, <<3, 1>> >>
+
+MkH(fam, e, data, seed, k, plan, np, hook, hists) ==
   [kind |-> fam,
    inp |-> [est |-> e[1], var |-> e[2], data |-> data, seed |-> seed, k |-> k,
             minpts |-> 2, tol4 |-> 15000, depth |-> 5,
             iters |-> IF hook THEN 3 ELSE 6, runs |-> IF hook THEN 1 ELSE 2,   \* k-means budgets (hooked runs are logged row by row)
-            plan |-> plan, nproc |-> np, hook |-> hook]]
+            plan |-> plan, nproc |-> np, hook |-> hook, hists |-> hists]]
+Mk(fam, e, data, seed, k, plan, np, hook) == MkH(fam, e, data, seed, k, plan, np, hook, Fresh)
 
 Init ==
   \/ \E n \in 2..MaxLatN : \E s \in LatSets(n), e \in TieSensitive, k \in {2, 3} :
@@ -142,6 +161,8 @@ Init ==
   \/ \E y \in FracSets, e \in FracEsts : case = Mk("frac", e, Frac(y), 7, 2, PlanSeq, 2, FALSE)
   \/ \E e \in Catalogue, b \in BlobSets : \E sd \in SeedsOf(e) :
         case = Mk("blob", e, Blob(b), sd, 3, IF e[3] THEN PlanFull ELSE PlanSeq, 2, FALSE)
+  \/ \E e \in BuilderEsts, b \in BuilderSets : \E sd \in SeedsOf(e) :
+        case = MkH("builder", e, Blob(b), sd, 3, PlanBuilder, 2, FALSE, AllHists)
   \/ \E e \in HookEsts, b \in HookSets : \E sd \in SeedsOf(e) :
         case = Mk("hook", e, Blob(b), sd, 3, PlanFull, 2, TRUE)
   \/ \E e \in HookEsts, b \in HookBigSets : \E sd \in SeedsOf(e) :
